@@ -131,9 +131,17 @@ func load(dir string, inline bool) (*World, error) {
 				baselineTypes[parts[0]] = true
 			}
 		}
-		flat, ferr := ssa.FlattenStructResults(w.Main, ssautil.AllFunctions(prog), func(nt *types.Named) bool {
+		isNewStruct := func(nt *types.Named) bool {
 			return nt.Obj().Pkg() == w.Main.Pkg && !baselineTypes[nt.Obj().Name()]
-		})
+		}
+		flatP, perr := ssa.FlattenStructParams(w.Main, ssautil.AllFunctions(prog), isNewStruct)
+		if perr != nil {
+			return nil, fmt.Errorf("inline: %v", perr)
+		}
+		for _, n := range flatP {
+			w.Renamed = append(w.Renamed, n+": struct parameter unpacked into positional parameters")
+		}
+		flat, ferr := ssa.FlattenStructResults(w.Main, ssautil.AllFunctions(prog), isNewStruct)
 		if ferr != nil {
 			return nil, fmt.Errorf("inline: %v", ferr)
 		}
